@@ -436,6 +436,14 @@ func (u *clientUpdater) updateService(ctx context.Context, service ServiceDefini
 		return nil
 	}
 	for _, presentation := range presentations {
+		// The presentations come from the remote Discovery Server: the same sanity checks as for a registration on this node.
+		// (storing them reads the JWT claims and the ID)
+		if presentation.Format() != vc.JWTPresentationProofFormat {
+			return fmt.Errorf("presentation from Discovery Service (service=%s): %w", service.ID, errUnsupportedPresentationFormat)
+		}
+		if presentation.ID == nil {
+			return fmt.Errorf("presentation from Discovery Service (service=%s): %w", service.ID, errPresentationWithoutID)
+		}
 		// Check if the presentation already exists
 		credentialSubjectID, err := credential.PresentationSigner(presentation)
 		if err != nil {
